@@ -15,7 +15,7 @@ fn s(x: &str) -> String {
 pub fn store_probe() -> Probe {
     Probe {
         keys: ["a", "ab", "a/b", "a/b/c", "a//b", "ä/β", "zzz", "", "a/", "a/?"].iter().map(|k| s(k)).collect(),
-        patterns: ["?", "#", "a/?", "a/#", "?/b", "?/#", "a/?/c", "a/#/b", "ä/?", "a//?", "a/b/#", "zzz/#", "zzz/#/b", "?/?/#"]
+        patterns: ["?", "#", "a/?", "a/#", "?/b", "?/#", "a/?/c", "a/#/b", "ä/?", "a//?", "a/b/#", "zzz/#", "zzz/#/b", "?/?/#", "a/", "?/", "a//", "/a"]
             .iter()
             .map(|k| s(k))
             .collect(),
@@ -32,7 +32,7 @@ pub fn store_probe() -> Probe {
             Some(s("zzz")),
             Some(s("a/?")),
         ],
-        parent_patterns: ["?", "a/?", "?/b", "?/?", "a", "zzz/?"].iter().map(|k| s(k)).collect(),
+        parent_patterns: ["?", "a/?", "?/b", "?/?", "a", "zzz/?", "a/", "?/"].iter().map(|k| s(k)).collect(),
     }
 }
 
@@ -61,9 +61,11 @@ pub fn c01_ops() -> Vec<Op> {
     for k in keys {
         ops.push(Op::Delete(A, s(k)));
     }
-    for p in ["?", "#", "a/?", "a/#", "?/b", "?/#", "a/?/c", "a/#/b", "zzz/#/b"] {
+    for p in ["?", "#", "a/?", "a/#", "?/b", "?/#", "a/?/c", "a/#/b", "zzz/#/b", "a/"] {
         ops.push(Op::PDelete(B, s(p)));
     }
+    // a key whose last segment is empty, next to the key without it
+    ops.push(Op::Set(A, s("a/"), json!(1)));
     for d in [IMPORT_PLAIN, IMPORT_CAS, IMPORT_DEEP] {
         ops.push(Op::Import(s(d)));
     }
@@ -196,6 +198,22 @@ pub fn c06(known: &Known, clients: &[C], keys: &[&str], with_data: bool) -> Core
     }
     let setup = clients.iter().map(|c| Op::Connect(*c)).collect();
     let probe = Probe { keys: vec![s("x"), s("x/y")], patterns: vec![], parents: vec![None, Some(s("x"))], parent_patterns: vec![] };
+    CoreScenario::new("C06", setup, ops, probe, known.open_for("C06"))
+}
+
+/// C06 with four clients on one key: a queue of three waiters, so that a waiter leaving from the
+/// front, the middle or the end of the queue can be told apart.
+pub fn c06_four(known: &Known) -> CoreScenario {
+    let clients: [C; 4] = [0, 1, 2, 3];
+    let mut ops = vec![];
+    for c in clients {
+        ops.push(Op::Lock(c, s("x")));
+        ops.push(Op::AcquireLock(c, s("x")));
+        ops.push(Op::ReleaseLock(c, s("x")));
+        ops.push(Op::Disconnect(c));
+    }
+    let setup = clients.iter().map(|c| Op::Connect(*c)).collect();
+    let probe = Probe { keys: vec![s("x")], patterns: vec![], parents: vec![None], parent_patterns: vec![] };
     CoreScenario::new("C06", setup, ops, probe, known.open_for("C06"))
 }
 
